@@ -91,6 +91,29 @@ CHECKS = {
          "with the model state by TLC."),
    note="Trusted: the harness's abstraction of snapshot entries (name{tags}, bucket upper bounds as strings, value tokens), TLC. The concurrent-snapshot clause is not covered yet.",
    design_ref="DESIGN.md section 6 C11"),
+ "C13": dict(
+   technique="TLA+ specs M3Reporter.tla (producers / Flush / Close / batching goroutine / clock as threads over the bounded queue) and M3TagCache.tla (hash-keyed tag cache over strings containing '=') checked by TLC; executions of the real reporter under the controlled scheduler and free-running histories, decoded at loopback sinks, validated by TLC against M3ObsTrace.tla",
+   text=("TLC checks on the model, for all interleavings of 2 producers, Flush and 1-2 Close callers with a queue of 1 (2), that every report whose call returned before Close was called is emitted exactly "
+         "once by the time Close returns, nothing twice, per-thread order, timestamps within [construction, call], and on the tag-cache model that every allocation gets its own tags; the pinned tree's two "
+         "deviations (clock first written by the time loop; cache hit trusted on the hash) and the dropped final flush are shown to violate their clause. The real reporter is run through every "
+         "interleaving of the handshake points for the micro scenarios and random schedules of larger mixes, plus free-running histories from 1-4 goroutines with byte-string names/tags whose k=v "
+         "renderings collide, int64/float64 extremes, both protocols, 1 and 3 destinations, queue 1..4096; TLC judges every decoded datagram and the state at Close's return."),
+   note=("Trusted: the controlled scheduler (code between two verif hooks of one goroutine is atomic w.r.t. the other scenario goroutines; the reporter's clock goroutine has no hooks and runs freely), "
+         "loopback UDP sinks and the repository's own thrift decoder as observation of what was emitted, recover() / goroutine dumps as observation of panics and leaks, TLC. "
+         "DFS is exhaustive over thread choices at the listed handshake points only; larger mixes are seeded random schedules.") + " Wall-clock relations (timestamp vs construction / return of the call) are computed by the harness. Real UDP loss is out of scope.",
+   design_ref="DESIGN.md section 6 C13"),
+ "C14": dict(
+   technique="TLA+ spec M3Reporter.tla (enter protocol pending++ / done / select-send / pending-- against Close's CAS / spin / close donech / close queue / wait, bounded queue, blocking marker send) checked by TLC; every interleaving of those points on the real reporter under the controlled scheduler validated by TLC against M3ObsTrace.tla",
+   text=("TLC checks for all interleavings of 2 producers, Flush (internal metrics + blocking marker send) and 1-2 Close callers followed by a late report, queue capacity 1: no send on a closed queue, "
+         "no deadlock (ENABLED-based), at most one nil from Close, late calls enqueue nothing, the reporter's goroutines have ended when Close returns, pending returns to 0; five weakenings (pending++ after "
+         "the done check, Close without the spin, Flush ignoring done, a second nil from Close, the done path leaking pending) are each shown to violate their clause. The real reporter is driven through "
+         "every interleaving of the hook points of that protocol (1 producer x Close + late report; x 2 closers; Flush x Close; 2 producers x Close) and random schedules of larger mixes (4 kinds of "
+         "metrics, Flush, 1-2 closers, queue 1..4096, both protocols, 1 and 3 destinations, no Close at all); panics, deadlocks (incl. a Close that spins while nobody else moves), leaked goroutines and "
+         "unbalanced pending are observed per execution and judged by TLC."),
+   note=("Trusted: the controlled scheduler (code between two verif hooks of one goroutine is atomic w.r.t. the other scenario goroutines; the reporter's clock goroutine has no hooks and runs freely), "
+         "loopback UDP sinks and the repository's own thrift decoder as observation of what was emitted, recover() / goroutine dumps as observation of panics and leaks, TLC. "
+         "DFS is exhaustive over thread choices at the listed handshake points only; larger mixes are seeded random schedules.") + " Data-race freedom is not decided (not expressible in TLA+).",
+   design_ref="DESIGN.md section 6 C14"),
  "C15": dict(
    technique="TLA+ spec UDPTransport.tla (per-destination buffer / closed / dead socket, multi fan-out, writer's view of the message as ghost state) checked by TLC; call and fault histories on the real transports against loopback UDP sinks validated by TLC against UDPTransportTrace.tla",
    text=("TLC checks for every history of <= 7 (8) Write / Flush / Discard / Close calls and socket faults, one destination and multi transports over 2 (3), that each sink received exactly the "
